@@ -420,6 +420,10 @@ class World:
             trial, target, before_len = None, None, 0
             mres = None
 
+        if attr and isinstance(mres, M.Raised) and mres.cls is KeyError and name == "getitem":
+            mres = M.Raised(AttributeError(str(mres.exc)))  # attribute syntax: missing key -> AttributeError (C18)
+        # (del obj.missing: the statement is ambiguous - "exactly like del obj['k']" (KeyError) vs "missing key ->
+        #  AttributeError"; the pinned tree raises KeyError, which is accepted; see DESIGN §7)
         pre = self.pre_op(r, ob, h, name, mut, buffered)
         lres_raw = self.lib_op(h.node, name, args, attr)
         lres = M.result_plain(name, lres_raw, self.SC)
